@@ -3,7 +3,7 @@
 The event graph is built exactly as pv_to_puml_string does (ingestion with the dummy start event, deep copy,
 create_graph_from_events) for every corpus / fragment-F case that contains a loop; the real detect_loops is called and
 the returned nesting (nodes, edges, loop bodies with their start / end / break ids, recursively) is logged.
-B3: spec/LoopExtract.tla, the abstract extraction machine, is model-checked on every rooted digraph with 3 (thorough: 4)
+B3: spec/LoopExtract.tla, the abstract extraction machine, is model-checked on every rooted digraph with 3
 nodes and every order of extraction (termination; the four invariants on the final nesting).
 B2: TLC (spec/LoopNest.tla) evaluates on each observed nesting: every graph of the nesting is acyclic with a single entry,
 each input event type occurs exactly once across the nesting and nothing is invented, every edge of the input that lies
@@ -120,7 +120,7 @@ def run_cases(chk, named, ks, seed, npres, stats):
 def b3(chk, tier, stats):
     """design-level: the abstract extraction machine (spec/LoopExtract.tla) on every rooted digraph with N nodes, every
     order of extraction: terminates, and the final nesting satisfies the invariants"""
-    n = 3 if tier == "quick" else 4
+    n = 3            # N = 4 (38 912 input graphs) does not finish within 50 minutes with these recursive operators
     cfg = "SPECIFICATION Spec\nCONSTANT N = %d\nINVARIANT AllAcyclicSingleEntry\nINVARIANT Partition\nINVARIANT CyclesInside\n" \
           "INVARIANT BoundedLoops\n" % n + ("PROPERTY Terminates\n" if n == 3 else "")
     r = tlc.run_tlc("LoopExtract", cfg, None, modules=["LoopExtract"], workers=8, jvm="throughput", timeout=3000, heap="6g")
